@@ -1,5 +1,6 @@
 import LyModel.Lex.JsonNumSpec
 import LyModel.Lex.JsonNumLemmas
+import LyModel.Lex.JsonNumPrep
 /-!
 # C05 / C01 — `json_number_value`: the decimal string `lyjson_number` hands on denotes the number that was written
 
@@ -8,8 +9,17 @@ Full statement `JsonNumberValue`: for every RFC 8259 number text `t` followed by
 `lyjson_number` succeeds it consumed exactly `t`, and the value it produced is a plain decimal string (no exponent)
 denoting the same rational.
 
-It is **false** of libyang 3.7.8 (finding F14): `json_number_value_fails` — stated for the source shape the
-translator found (`Generated.lyjsonExpLeadingZeroFixed = false`), with the witness `0.5e1`, whose value is `"."`.
+The composition branch for a mantissa `0.ddd` with the new point inside the digits is read off the source by the
+translator (`Generated.lyjsonExpLeadingZeroFixed`).  Both values of the switch are covered:
+
+* `json_number_value_fixed` — with the branch as rewritten by `fixes/F14.diff` (`= true`, the tree as it is now) the full
+  statement HOLDS: all literals without exponent, zero mantissas, zero exponents, and every exponent literal whatever
+  the place the shifted point lands (left of the digits, inside them, right of them; with and without a leading `0.`);
+* `json_number_value_fails` — with the branch of libyang 3.7.8 (`= false`) it is false (finding F14, witness `0.5e1`,
+  whose value is `"."`), and `json_number_value_partial` is the part that holds there: everything but that one branch;
+* `json_number_value_iff_fixed` puts the two together: `JsonNumberValue ↔ lyjsonExpLeadingZeroFixed = true`.
+
+`json_number_no_syntax_error`: no number text is rejected as malformed — the only errors are the length / exponent limits.
 -/
 namespace LyModel.Props.C05
 open LyModel LyModel.JsonNum
@@ -48,19 +58,7 @@ theorem json_number_value_fails (h : Generated.lyjsonExpLeadingZeroFixed = false
   rw [this] at hd
   cases hd
 
--- AUDIT: `f14_witness` and `json_number_value_fails` take `Generated.lyjsonExpLeadingZeroFixed = false` — an equation
--- between a generated constant and a literal.  In the tree as it is generated now (`fixes/F14.diff` applied, F14 is
--- `fixed`) the constant is `true`: both theorems are vacuous for the source that is being checked
--- (`json_number_value_fails_vacuous_for_fixed_source`), and since the positive statement is OPEN (below), this file
--- proves NOTHING about `JsonNumberValue` on the current source; it is carried by the (L) law of the check only.  The
--- same holds for the second `example` under `json_exp_number_in_bounds` in `Props/C05.lean`.
--- Minimal repair of the statement: keep `json_number_value_fails` as the record of 3.7.8 and state the claim for the
--- other value of the switch, `Generated.lyjsonExpLeadingZeroFixed = true → JsonNumberValue` (the OPEN
--- `json_number_value_partial` restricted to its first disjunct), so that for either value of the switch one of the two
--- theorems speaks.  That proof is the OPEN item and not a one-hour job.  Added here instead, as the part that is cheap:
--- on the fixed source the conclusion of `JsonNumberValue` holds at the F14 witnesses `0.5e1` (new integer branch) and
--- `0.10203e3` (rewritten branch) — `json_number_value_at_f14_witnesses_fixed`.  Together with `json_number_value_fails`
--- the pair is non-vacuous whatever the translator finds.
+-- AUDIT (resolved): `_fails` is the record of the 3.7.8 branch (vacuous on the fixed tree); the positive statement is proved: `json_number_value_fixed`, `json_number_value_iff_fixed`.
 
 /-- the hypothesis of `f14_witness` / `json_number_value_fails` is false of a source with the fixed branch -/
 theorem json_number_value_fails_vacuous_for_fixed_source (h : Generated.lyjsonExpLeadingZeroFixed = true) :
@@ -129,24 +127,96 @@ theorem json_number_value_at_f14_witnesses_fixed (h : Generated.lyjsonExpLeading
     cases hr
     exact ⟨rfl, (false, 10203, 2), by decide, by decide⟩
 
-/-
--- OPEN: `json_number_value_partial` — the true part of `JsonNumberValue`:
+/-- **The part that holds for either source.**  For every RFC 8259 number text `t` and every terminating rest: if
+    `lyjson_number` succeeds it consumed exactly `t` and its value is a plain decimal string denoting the number written —
+    provided the source has the fixed branch, or `t` does not go through the branch of F14 (mantissa `0.ddd`, exponent
+    `0 < e ≤` number of fraction digits).  Covered: no exponent, zero mantissa (`0`/`-0`), zero exponent (mantissa text
+    handed on), and `lyjson_exp_number` in every composition branch: point left of the digits (`0.` zeros digits), inside
+    them (with / without a leading `0.`, the old point moved or falling away), right of them (digits padded with zeros);
+    trailing zeros cut, `uint16_t` arithmetic and the buffer read-back included. -/
+theorem json_number_value_partial (t : NumText) (rest : Bytes) (hwf : t.wf = true) (hs : Stops rest = true)
+    (hx : Generated.lyjsonExpLeadingZeroFixed = true ∨
+          ¬ (t.ip = [48] ∧ t.fp.isSome = true ∧ 0 < t.expVal ∧ t.expVal ≤ t.fracLen)) :
+    ∀ r, number (t.render ++ rest) = .ok r →
+      r.consumed = t.render.length ∧ ∃ d, parseDec r.value = some d ∧ SameValue t d :=
+  number_value t rest hwf hs hx
 
-  theorem json_number_value_partial (t : NumText) (rest : Bytes) (hwf : t.wf = true) (hs : Stops rest = true)
-      (hx : Generated.lyjsonExpLeadingZeroFixed = true ∨
-            ¬ (t.ip = [48] ∧ t.fp.isSome ∧ 0 < t.expVal ∧ t.expVal ≤ t.fracLen)) :      -- the branch of F14 excluded
-      ∀ r, number (t.render ++ rest) = .ok r →
-        r.consumed = t.render.length ∧ ∃ d, parseDec r.value = some d ∧ SameValue t d
+/-- **`json_number_value` on the fixed source.**  With the leading-zero branch as rewritten by `fixes/F14.diff` (what
+    the translator finds in the tree now) the full statement holds. -/
+theorem json_number_value_fixed (h : Generated.lyjsonExpLeadingZeroFixed = true) : JsonNumberValue :=
+  fun t rest hwf hs => number_value t rest hwf hs (Or.inl h)
 
--- Not proved in this round.  In place: the scanner helper lemmas (`Lex/JsonNumScan.lean`: `rd_of_drop`,
--- `drop_of_drop_append`, `countDigits_prefix`, the `NoDigitAhead` facts of a rendered text, `wf_ip/fp/exp`) and the
--- rendering lemmas (`Lex/JsonNumRender.lean`: the stores of every branch are consecutive (`copyGo_eq_seqW`,
--- `memsetW_eq_seqW`), the value read back is the byte list written cut at `buf_len` (`value_of_seqW`), and the copy
--- loop writes `insertDot (dp − d) (eraseDec …)` (`copyBytes_eq`)).  Missing: the evaluation of `scan`/`prep` on a
--- rendered text and the per-branch arithmetic `digitsVal`.  Until then the statement is carried by the (L) law of the
--- check: python `fractions` on the exhaustive number micro-grammar and 3 000 / 200 000 random texts per run
--- (35 805 + 719 texts in the quick tier; every failing one is an instance of F14).
--/
+/-- the full statement holds exactly for the fixed source -/
+theorem json_number_value_iff_fixed : JsonNumberValue ↔ Generated.lyjsonExpLeadingZeroFixed = true := by
+  constructor
+  · intro hv
+    cases h : Generated.lyjsonExpLeadingZeroFixed with
+    | true => rfl
+    | false => exact absurd hv (json_number_value_fails h)
+  · exact json_number_value_fixed
+
+/-- **No number text is rejected as malformed**: on an RFC 8259 number text `lyjson_number` never reports an invalid
+    character or an unexpected end — its only errors are the limits (`TooLong`, `ExpRange`, `MaxLen`).  So the
+    success hypothesis of `JsonNumberValue` fails only for texts beyond those limits. -/
+theorem json_number_no_syntax_error (t : NumText) (rest : Bytes) (hwf : t.wf = true) (hs : Stops rest = true) :
+    number (t.render ++ rest) ≠ .error .invChar ∧ number (t.render ++ rest) ≠ .error .eof := by
+  have key := number_error_kind t rest hwf hs
+  constructor
+  · intro h; have := key _ h; simp at this
+  · intro h; have := key _ h; simp at this
+
+/-- non-vacuity of `json_number_value_partial` in each branch, whatever the switch (texts without a leading `0.`):
+    no exponent `-12.50`; zero mantissa `-0.00e5`; zero exponent `1.5E+00`; point left of the digits `-12.50e-3` →
+    `-0.0125`; inside them `12.50e1` → `125` (the old point falls away) and `1200e-3` → `1.2`; right of them
+    `12.5e3` → `12500` — hypotheses met (`number … = .ok _` by evaluation), conclusion delivered by the theorem -/
+example : ∀ t ∈ ([
+      { neg := true, ip := [49, 50], fp := some [53, 48], exp := none },
+      { neg := true, ip := [48], fp := some [48, 48], exp := some (false, none, [53]) },
+      { neg := false, ip := [49], fp := some [53], exp := some (true, some false, [48, 48]) },
+      { neg := true, ip := [49, 50], fp := some [53, 48], exp := some (false, some true, [51]) },
+      { neg := false, ip := [49, 50], fp := some [53, 48], exp := some (false, none, [49]) },
+      { neg := false, ip := [49, 50, 48, 48], fp := none, exp := some (false, some true, [51]) },
+      { neg := false, ip := [49, 50], fp := some [53], exp := some (false, none, [51]) }] : List NumText),
+    t.wf = true ∧ ∃ r, number (t.render ++ [44]) = .ok r ∧
+      r.consumed = t.render.length ∧ ∃ d, parseDec r.value = some d ∧ SameValue t d := by
+  intro t ht
+  simp only [List.mem_cons, List.not_mem_nil, or_false] at ht
+  rcases ht with rfl | rfl | rfl | rfl | rfl | rfl | rfl
+  all_goals
+    refine ⟨by decide, _, rfl, ?_⟩
+    exact json_number_value_partial _ [44] (by decide) (by decide) (Or.inr (by decide)) _ rfl
+
+/-- what the values are in those seven cases -/
+example : (number [45, 49, 50, 46, 53, 48, 44]).toOption.map (·.value) = some [45, 49, 50, 46, 53, 48] ∧
+    (number [45, 48, 46, 48, 48, 101, 53, 44]).toOption.map (·.value) = some [45, 48] ∧
+    (number [49, 46, 53, 69, 43, 48, 48, 44]).toOption.map (·.value) = some [49, 46, 53] ∧
+    (number [45, 49, 50, 46, 53, 48, 101, 45, 51, 44]).toOption.map (·.value) = some [45, 48, 46, 48, 49, 50, 53] ∧
+    (number [49, 50, 46, 53, 48, 101, 49, 44]).toOption.map (·.value) = some [49, 50, 53] ∧
+    (number [49, 50, 48, 48, 101, 45, 51, 44]).toOption.map (·.value) = some [49, 46, 50] ∧
+    (number [49, 50, 46, 53, 101, 51, 44]).toOption.map (·.value) = some [49, 50, 53, 48, 48] := by
+  refine ⟨?_, ?_, ?_, ?_, ?_, ?_, ?_⟩ <;> decide
+
+/-- non-vacuity of `json_number_value_fixed` at the F14 witnesses (mantissa `0.ddd`, point inside / right behind the
+    digits): on the fixed source `number` succeeds on `0.5e1,` and `0.10203e3,` and the theorem gives the conclusion -/
+example (h : Generated.lyjsonExpLeadingZeroFixed = true) :
+    (∃ r, number (NumText.render { neg := false, ip := [48], fp := some [53], exp := some (false, none, [49]) } ++ [44]) = .ok r ∧
+      ∃ d, parseDec r.value = some d ∧ SameValue { neg := false, ip := [48], fp := some [53], exp := some (false, none, [49]) } d) ∧
+    (∃ r, number (NumText.render { neg := false, ip := [48], fp := some [49, 48, 50, 48, 51], exp := some (false, none, [51]) } ++ [44]) = .ok r ∧
+      ∃ d, parseDec r.value = some d ∧
+        SameValue { neg := false, ip := [48], fp := some [49, 48, 50, 48, 51], exp := some (false, none, [51]) } d) := by
+  constructor
+  · have e : NumText.render { neg := false, ip := [48], fp := some [53], exp := some (false, none, [49]) } ++ [44]
+        = [48, 46, 53, 101, 49, 44] := by decide
+    refine ⟨_, by rw [e]; exact f14_witness_fixed h, ?_⟩
+    exact (json_number_value_fixed h _ [44] (by decide) (by decide) _ (by rw [e]; exact f14_witness_fixed h)).2
+  · have e : NumText.render { neg := false, ip := [48], fp := some [49, 48, 50, 48, 51], exp := some (false, none, [51]) } ++ [44]
+        = [48, 46, 49, 48, 50, 48, 51, 101, 51, 44] := by decide
+    refine ⟨_, by rw [e]; exact f14_witness2_fixed h, ?_⟩
+    exact (json_number_value_fixed h _ [44] (by decide) (by decide) _ (by rw [e]; exact f14_witness2_fixed h)).2
+
+/-- non-vacuity of `json_number_no_syntax_error`: a text that IS refused — by the exponent limit, not as malformed -/
+example : number (NumText.render { neg := false, ip := [49], fp := none, exp := some (false, none, [55, 48, 48, 48, 48]) } ++ [44])
+    = .error .expRange := by rfl
 
 /-- non-vacuity of the full statement's hypotheses, and a case where its conclusion does hold: `-12.50e-3,` → `-0.0125` -/
 example : ∃ r, number (NumText.render { neg := true, ip := [49, 50], fp := some [53, 48], exp := some (false, some true, [51]) } ++ [44]) = .ok r ∧
